@@ -33,6 +33,21 @@ run() {
         rc=1 ;;
     esac
   fi
+  # likewise a stack overflow (unbounded recursion): a violation when the recursion is the library's - the crashing goroutine's
+  # trace (the runtime prints its innermost and outermost 50 frames) shows at least 20 library frames and more library frames
+  # than harness frames
+  if [ "$rc" -ge 2 ] && grep -q '^fatal error: stack overflow' "$log"; then
+    nlib=$(sed -n '/^goroutine .*\[running\]/,/^$/p' "$log" | grep -c "^	$VERIF_REPO/")
+    nver=$(sed -n '/^goroutine .*\[running\]/,/^$/p' "$log" | grep -c "^	$VERIF_ROOT/")
+    if [ "$nlib" -ge 20 ] && [ "$nlib" -gt "$nver" ]; then
+      out="${VERIF_OUT:-$VERIF_ROOT}/replays"; mkdir -p "$out"; f="$out/$ID-crash.txt"
+      { sed -n '1,12p' "$log"; sed -n '/^goroutine .*\[running\]/,/^$/p' "$log" | head -160; } > "$f"
+      echo "VIOLATION property=$ID replay=$f"
+      echo "  key=fatal-stack-overflow-in-library"
+      echo "  the library recursed without bound and crashed the process ($nlib library frames in the trace of the crashing goroutine)"
+      rc=1
+    fi
+  fi
   rm -f "$log"
   return "$rc"
 }
